@@ -79,9 +79,7 @@ func (lh *WorkerLoop) Run(ctx context.Context) {
 			return
 
 		case msg := <-lh.MessagesChannel:
-			parsedMessage := interfaces.ToConsensusMessage(msg)
-			lh.logger.Debug("LHFLOW LHMSG WORKERLOOP RECEIVED %v from %v for H=%d V=%d", parsedMessage.MessageType(), parsedMessage.SenderMemberId(), parsedMessage.BlockHeight(), parsedMessage.View())
-			lh.filter.HandleConsensusRawMessage(msg)
+			lh.handleRawMessage(msg)
 
 		case trigger := <-lh.electionChannel:
 			if trigger == nil {
@@ -110,6 +108,21 @@ func (lh *WorkerLoop) Run(ctx context.Context) {
 			lh.logger.Debug("LHFLOW UPDATESTATE WORKERLOOP - Handled block with H=%d", height)
 		}
 	}
+}
+
+func (lh *WorkerLoop) handleRawMessage(msg *interfaces.ConsensusRawMessage) {
+	parsedMessage := interfaces.ToConsensusMessage(msg)
+	if parsedMessage == nil {
+		lh.logger.Info("LHFLOW LHMSG WORKERLOOP - IGNORING MALFORMED MESSAGE")
+		return
+	}
+	defer func() {
+		if r := recover(); r != nil { // malformed nested content (votes, proofs) surfaces only when it is read
+			lh.logger.Info("LHFLOW LHMSG WORKERLOOP - IGNORING MESSAGE THAT FAILED TO PARSE: %v", r)
+		}
+	}()
+	lh.logger.Debug("LHFLOW LHMSG WORKERLOOP RECEIVED %v from %v for H=%d V=%d", parsedMessage.MessageType(), parsedMessage.SenderMemberId(), parsedMessage.BlockHeight(), parsedMessage.View())
+	lh.filter.HandleConsensusRawMessage(msg)
 }
 
 func (lh *WorkerLoop) handleUpdateState(receivedBlockWithProof *blockWithProof) {
